@@ -50,29 +50,31 @@ Qed.
 (* REASSEMBLY.  Every registered policy, every mode, every chunk size >= 8192 (uint32), any two algorithms of
    the policy's sizes linked as sender/receiver, every body within the limits negotiated in HEL/ACK
    (the sender checks the peer's limits before writing, the receiver its own; 0 = no limit), every reachable
-   counter value: SendMsg writes chunks from which the peer's Receive delivers exactly the body; the counter
-   left behind is again a uint32 (so this holds for every message of a channel's life). *)
+   counter value: SendMsg writes chunks from which the peer's Receive delivers exactly the body. The receiver's
+   sequence check (numbers received on a channel must increase, roll-over allowed) starts from no chunk seen or from
+   the sender's previous number and ends at the sender's new counter, which is again a uint32: the statement is an
+   invariant over every message of a channel's life, including the roll-over at 2^32-1024. *)
 Theorem C07_reassemble :
-  forall p S R m pnone cs chan tok req s0 body maxchunks maxmsg t,
+  forall p S R m pnone cs chan tok req s0 body maxchunks maxmsg t rlast,
   In p sym_policies -> has_sizes S p -> link S R ->
   8192 <= cs < 4294967296 -> u32 chan -> u32 req ->
   u32 s0 ->
   zlen body < 4294967295 -> within maxmsg (zlen body) -> u32 maxmsg ->
   within maxchunks (zlen body / go_max cs p + 1) -> u32 maxchunks ->
-  tbl_get t req = [] ->
-  exists ws sn,
+  tbl_get t req = [] -> (rlast = None \/ rlast = Some s0) ->
+  exists ws sn t',
     send_message m S MSG chan tok req (go_max cs p) s0 maxchunks maxmsg body = Ok (ws, sn) /\
-    receive_all (mkRcfg m pnone R chan maxchunks maxmsg) t ws = [Deliver req chan body] /\
+    receive_run (mkRcfg m pnone R chan maxchunks maxmsg) (t, rlast) ws = ((t', Some sn), [Deliver req chan body]) /\
     u32 sn.
 Proof.
-  intros p S R m pnone cs chan tok req s0 body maxchunks maxmsg t Hin (Hb & Hpl & Hsg & Hrs) L Hcs Hch Hrq Hs0 Hbl Hbm Hmm Hcnt Hmc Ht.
+  intros p S R m pnone cs chan tok req s0 body maxchunks maxmsg t rlast Hin (Hb & Hpl & Hsg & Hrs) L Hcs Hch Hrq Hs0 Hbl Hbm Hmm Hcnt Hmc Ht Hrl.
   destruct (go_max_facts p cs Hin Hcs) as (Hmax & Hrange & Hp).
   pose proof (params_ok_spec _ _ _ _ Hp) as (Hp1 & Hp2 & Hp3 & Hp4 & Hp5).
   assert (Hcnt' : maxchunks = 0 \/ zlen body / go_max cs p <= maxchunks) by (destruct Hcnt; [left; assumption | right; lia]).
-  destruct (send_receive S R m pnone chan tok req (go_max cs p) s0 maxchunks maxmsg body maxchunks maxmsg t L
-              ltac:(rewrite Hpl; lia) ltac:(rewrite Hsg; lia) Hch Hrq ltac:(lia) Hs0 Hbl Hmc ltac:(destruct Hmm; lia) Hcnt Hbm Hbm Hmm Hcnt' Hmc Ht)
-    as (ws & sn & Hsend & Hrecv & Hall).
-  exists ws, sn. split; [exact Hsend|]. split; [exact Hrecv|].
+  destruct (send_receive S R m pnone chan tok req (go_max cs p) s0 maxchunks maxmsg body maxchunks maxmsg t rlast L
+              ltac:(rewrite Hpl; lia) ltac:(rewrite Hsg; lia) Hch Hrq ltac:(lia) Hs0 Hbl Hmc ltac:(destruct Hmm; lia) Hcnt Hbm Hbm Hmm Hcnt' Hmc Ht Hrl)
+    as (ws & sn & t' & Hsend & Hrecv & Hall).
+  exists ws, sn, t'. split; [exact Hsend|]. split; [exact Hrecv|].
   (* the final counter *)
   unfold send_message in Hsend. rewrite encode_chunks_ok in Hsend by (try assumption; lia).
   destruct (check_peer_limits maxchunks maxmsg _) in Hsend; [discriminate|].
@@ -104,9 +106,9 @@ Proof.
   destruct (go_max_facts p cs Hin Hcs) as (Hmax & Hrange & Hp).
   pose proof (params_ok_spec _ _ _ _ Hp) as (Hp1 & Hp2 & Hp3 & Hp4 & Hp5).
   assert (Hcnt' : maxchunks = 0 \/ zlen body / go_max cs p <= maxchunks) by (destruct Hcnt; [left; assumption | right; lia]).
-  destruct (send_receive S R m false chan tok req (go_max cs p) s0 maxchunks maxmsg body maxchunks maxmsg [] L
-              ltac:(rewrite Hpl; lia) ltac:(rewrite Hsg; lia) Hch Hrq ltac:(lia) Hs0 Hbl Hmc ltac:(destruct Hmm; lia) Hcnt Hbm Hbm Hmm Hcnt' Hmc eq_refl)
-    as (ws' & sn' & Hsend' & _ & Hall).
+  destruct (send_receive S R m false chan tok req (go_max cs p) s0 maxchunks maxmsg body maxchunks maxmsg [] None L
+              ltac:(rewrite Hpl; lia) ltac:(rewrite Hsg; lia) Hch Hrq ltac:(lia) Hs0 Hbl Hmc ltac:(destruct Hmm; lia) Hcnt Hbm Hbm Hmm Hcnt' Hmc eq_refl (or_introl eq_refl))
+    as (ws' & sn' & t' & Hsend' & _ & Hall).
   rewrite Hsend' in Hsend. injection Hsend as <- <-.
   destruct (send_shapes S R m false chan req (go_max cs p) _ body ws' ltac:(lia) Hall)
     as (cws & fw & -> & HC & HFt & HFl & HFs & Hn).
@@ -133,7 +135,7 @@ Proof. split; [apply toy_sym_link; lia | repeat split]. Qed.
 Example C07_nonvacuous :
   match send_message ModeSignEnc (toy_sym_algo 16 32 7 9) MSG 7 9 11 (go_max 8192 sym_Basic256Sha256) 5 512 2097152 (gen_body 20000 1 3) with
   | Ok (ws, sn) => map zlen ws = [8192; 8192; 3792] /\ sn = 8 /\
-      receive_all (mkRcfg ModeSignEnc false (toy_sym_algo 16 32 9 7) 7 512 2097152) [] ws = [Deliver 11 7 (gen_body 20000 1 3)]
+      receive_all (mkRcfg ModeSignEnc false (toy_sym_algo 16 32 9 7) 7 512 2097152) ([], Some 5) ws = [Deliver 11 7 (gen_body 20000 1 3)]
   | _ => False
   end.
 Proof. vm_compute. repeat split. Qed.
@@ -142,7 +144,7 @@ Proof. vm_compute. repeat split. Qed.
    used to drop such a chunk; repaired by the C12 fix, which this model follows) *)
 Example C07_first_chunk_numbered_zero :
   match send_message ModeNone (toy_sym_algo 1 0 0 0) MSG 7 9 11 4 4294967295 0 0 (gen_body 6 1 1) with
-  | Ok (ws, sn) => receive_all (mkRcfg ModeNone true (toy_sym_algo 1 0 0 0) 7 512 2097152) [] ws = [Deliver 11 7 (gen_body 6 1 1)] /\ sn = 1
+  | Ok (ws, sn) => receive_all (mkRcfg ModeNone true (toy_sym_algo 1 0 0 0) 7 512 2097152) ([], Some 4294967295) ws = [Deliver 11 7 (gen_body 6 1 1)] /\ sn = 1
   | _ => False
   end.
 Proof. vm_compute. split; reflexivity. Qed.
